@@ -74,7 +74,7 @@ GroupKeys(rs) ==   \* distinct values of a in order of first appearance
 MinOf(S) == CHOOSE x \in S : \A y \in S : x <= y
 GroupRows(rs) ==   \* <<a, COUNT( * ), MIN(id)>>, the NULL keys form ONE group
     LET ks == GroupKeys(rs)
-    IN [g \in 1..Len(ks) |->
+    IN << >> \o [g \in 1..Len(ks) |->
           LET members == {i \in 1..Len(rs) : rs[i][2] = ks[g]}
           IN <<ks[g], Cardinality(members), MinOf({rs[i][1] : i \in members})>>]
 JoinRows(rs) ==    \* inner equi-join on a: NULL never matches
@@ -103,7 +103,7 @@ OrdIdx(x) == CASE x = "1" -> 1 [] x = "2" -> 2 [] x = "3" -> 3
 OutOf(sel, r) == [i \in 1..Len(sel) |-> Val(sel[i], r)]
 KeyVal(key, sel, r) == IF key.k = "ord" THEN Val(sel[OrdIdx(key.x)], r) ELSE Val(key.x, r)
 KeysOf(keys, sel, r) == [i \in 1..Len(keys) |-> KeyVal(keys[i], sel, r)]
-Dirs(keys) == [i \in 1..Len(keys) |-> keys[i].d]
+Dirs(keys) == << >> \o [i \in 1..Len(keys) |-> keys[i].d]
 \* the key is computable from the output row (it is an ordinal or repeats a select item)
 Projected(key, sel) == key.k = "ord" \/ key.x \in SeqToSet(sel)
 
@@ -143,10 +143,13 @@ Classes(rows, dirs) == ClassFrom(rows, dirs, Len(rows))
 
 (* ------------------------------------------------------------ the semantics *)
 \* the deduplicated, sorted input of the window, in ONE admissible order (ties in source order)
-Projection(q, keys) == LET b == Base(q) IN [i \in 1..Len(b) |-> [o |-> OutOf(q.sel, b[i]), k |-> KeysOf(keys, q.sel, b[i])]]
+\* (<< >> \o f makes TLC evaluate the function once into a tuple instead of re-evaluating it at every application)
+\* outsel: the select list that produces the output tuple (q.sel, except under a named deviation); ordinals always refer to q.sel
+ProjectionS(q, keys, outsel) == LET b == Base(q) IN << >> \o [i \in 1..Len(b) |-> [o |-> << >> \o OutOf(outsel, b[i]), k |-> << >> \o KeysOf(keys, q.sel, b[i])]]
+Projection(q, keys) == ProjectionS(q, keys, q.sel)
 SortedInput(q, keys) ==
     LET p == Projection(q, keys) IN SortBy(IF q.dist THEN Distinct(p) ELSE p, Dirs(keys))
-Outs(rows) == [i \in 1..Len(rows) |-> rows[i].o]
+Outs(rows) == << >> \o [i \in 1..Len(rows) |-> rows[i].o]
 Answer(q) == Outs(Window(SortedInput(q, q.keys), q.lim, q.off))
 
 \* bags as functions value -> multiplicity
@@ -169,26 +172,47 @@ Deterministic(R, cls, lim, off) ==
     IN \A c \in {cls[i] : i \in lo + 1..hi} : Cardinality({R[i].o : i \in {j \in 1..n : cls[j] = c}}) = 1
 
 (***************************************************************************)
-(* Named deviations (what the implementation is known to do instead).      *)
-(*  dead keys: an ORDER BY item the implementation evaluates to a          *)
-(*    constant.  "ordinal_ignored": every ordinal key; "unprojected_       *)
-(*    ignored": every key that is not computable from the select list.     *)
-(*    Observed is explained iff it is admissible for the query whose dead  *)
-(*    keys are removed.                                                    *)
-(*  "null_equals_all": the sort comparator answers Equal whenever one of   *)
-(*    the two values is NULL and goes on to the next key, which is not a   *)
-(*    preorder, so the resulting order depends on the sort algorithm.      *)
-(*    What an insertion/merge sort still guarantees is that no ADJACENT    *)
-(*    pair is inverted under that comparator; a top-k selection made with  *)
-(*    it may pick any rows.  Observed is explained iff it has the right    *)
-(*    length, its rows can be matched to distinct rows of the input, and   *)
-(*    no adjacent pair is inverted under CmpNullEq.  Only applicable when  *)
-(*    some key value of the input is NULL.                                 *)
+(* Named deviations: what the implementation is known to do instead.  A    *)
+(* set of deviations turns the reference semantics into a variant; an      *)
+(* observation that the reference rejects is EXPLAINED by the smallest set *)
+(* of deviations whose variant admits it (Verdict).                        *)
+(*                                                                         *)
+(*  dead keys - ORDER BY items the implementation evaluates to a constant:  *)
+(*    "ordinal_ignored"        every ordinal key (ORDER BY 2)              *)
+(*    "unprojected_ignored"    every key that cannot be computed from the  *)
+(*                             select list (the sort runs on projected rows)*)
+(*    "aggregate_keys_ignored" over GROUP BY, every key other than the     *)
+(*                             grouping column (an aggregate call is not   *)
+(*                             evaluated by the sort)                      *)
+(*    "setop_first_column"     ORDER BY over a set operation sorts by the  *)
+(*                             FIRST OUTPUT COLUMN in the direction of the *)
+(*                             first key, whatever the keys are            *)
+(*  "expr_columns_dropped"  the result keeps only the select items that    *)
+(*    are plain columns (expressions and aggregates vanish from the rows)  *)
+(*  "null_equals_all"  the sort comparator answers Equal whenever one of   *)
+(*    the two values is NULL and goes on to the next key.  That is not a   *)
+(*    preorder, so the order depends on the sort algorithm; what an        *)
+(*    insertion/merge sort still guarantees is that no ADJACENT pair is    *)
+(*    inverted under that comparator, and a top-k selection made with it   *)
+(*    may pick any rows.  Explained iff the observation has the right      *)
+(*    length, its rows match distinct rows of the input and no adjacent    *)
+(*    pair is inverted under CmpNullEq.  Needs a NULL among the key values.*)
+(*  "distinct_window_twice"  SELECT DISTINCT with LIMIT/OFFSET cuts the    *)
+(*    window out of the sorted rows BEFORE duplicates are removed, removes *)
+(*    the duplicates and cuts the same window again.                       *)
 (***************************************************************************)
+DevSeq == << "aggregate_keys_ignored", "distinct_window_twice", "expr_columns_dropped", "null_equals_all",
+             "ordinal_ignored", "setop_first_column", "unprojected_ignored" >>
+DevNames == SeqToSet(DevSeq)
+PlainColumn(q, e) == IF q.src = "group" THEN e = "c1" ELSE e \in Cols
 DeadKeys(q, devs) == {i \in 1..Len(q.keys) :
                         \/ "ordinal_ignored" \in devs /\ q.keys[i].k = "ord"
-                        \/ "unprojected_ignored" \in devs /\ ~Projected(q.keys[i], q.sel)}
-LiveKeys(q, devs) == SelectSeqIdx(q.keys, LAMBDA i : i \notin DeadKeys(q, devs), 1)
+                        \/ "unprojected_ignored" \in devs /\ ~Projected(q.keys[i], q.sel)
+                        \/ "aggregate_keys_ignored" \in devs /\ q.keys[i].k = "e" /\ ~PlainColumn(q, q.keys[i].x)}
+LiveKeys(q, devs) ==
+    IF "setop_first_column" \in devs THEN << [k |-> "ord", x |-> "1", d |-> q.keys[1].d] >>
+    ELSE SelectSeqIdx(q.keys, LAMBDA i : i \notin DeadKeys(q, devs), 1)
+OutSel(q, devs) == IF "expr_columns_dropped" \in devs THEN SelectSeqIdx(q.sel, LAMBDA i : PlainColumn(q, q.sel[i]), 1) ELSE q.sel
 CmpDirNullEq(x, y, d) == IF x = N \/ y = N THEN 0 ELSE CmpDir(x, y, d)
 RECURSIVE CmpNullEqFrom(_, _, _, _)
 CmpNullEqFrom(kx, ky, dirs, i) == IF i > Len(dirs) THEN 0
@@ -209,27 +233,51 @@ NullEqAdmissible(obs, R, dirs, lim, off) ==
     /\ HasNullKey(R)
     /\ Len(obs) = Max2(WinHi(n, lim, off) - WinLo(n, off), 0)
     /\ MatchFrom(obs, R, dirs, 1, 0, {})
-DevNames == {"ordinal_ignored", "unprojected_ignored", "null_equals_all"}
+\* distinct_window_twice: is there a first window W0 (m rows of P, in an order the sort may produce) whose
+\* de-duplicated second window is obs?   acc: indices into P chosen so far
+RECURSIVE TwiceFrom(_, _, _, _, _, _, _, _)
+TwiceFrom(obs, P, dirs, q, m, nulleq, acc, used) ==
+    IF Len(acc) = m
+      THEN LET W0 == << >> \o [i \in 1..m |-> P[acc[i]]]
+               R0 == SortBy(P, dirs)
+           IN /\ obs = Outs(Window(Distinct(W0), q.lim, q.off))
+              /\ (nulleq \/ AdmissibleOutput(Outs(W0), R0, Classes(R0, dirs), q.lim, q.off))
+      ELSE \E j \in 1..Len(P) :
+              /\ j \notin used
+              /\ (acc = << >> \/ (IF nulleq THEN CmpNullEq(P[acc[Len(acc)]].k, P[j].k, dirs) ELSE Cmp(P[acc[Len(acc)]].k, P[j].k, dirs)) <= 0)
+              /\ TwiceFrom(obs, P, dirs, q, m, nulleq, Append(acc, j), used \cup {j})
+\* the deviations of devs can apply to q at all
+Applicable(q, devs) ==
+    /\ ("ordinal_ignored" \in devs => \E i \in 1..Len(q.keys) : q.keys[i].k = "ord")
+    /\ ("unprojected_ignored" \in devs => \E i \in 1..Len(q.keys) : ~Projected(q.keys[i], q.sel))
+    /\ ("aggregate_keys_ignored" \in devs => q.src = "group" /\ \E i \in 1..Len(q.keys) : q.keys[i].k = "e" /\ ~PlainColumn(q, q.keys[i].x))
+    /\ ("setop_first_column" \in devs => q.src = "union" /\ Len(q.keys) > 0)
+    /\ ("distinct_window_twice" \in devs => q.src = "plain" /\ q.dist /\ (q.lim # NoLim \/ q.off # NoLim))
+    /\ ("expr_columns_dropped" \in devs => \E i \in 1..Len(q.sel) : ~PlainColumn(q, q.sel[i]))
 \* observed is what the reference semantics modified by exactly the deviations devs allows
 DevAdmissible(obs, q, devs) ==
     LET keys == LiveKeys(q, devs)
-        R == SortedInput(q, keys)
-    IN /\ ("ordinal_ignored" \in devs => \E i \in 1..Len(q.keys) : q.keys[i].k = "ord")
-       /\ ("unprojected_ignored" \in devs => \E i \in 1..Len(q.keys) : ~Projected(q.keys[i], q.sel))
-       /\ IF "null_equals_all" \in devs
-            THEN NullEqAdmissible(obs, R, Dirs(keys), q.lim, q.off)
-            ELSE AdmissibleOutput(obs, R, Classes(R, Dirs(keys)), q.lim, q.off)
-\* "ok", or the smallest explaining set of deviations (by cardinality, then in the fixed order below), or "bad"
-DevOrder == << {"ordinal_ignored"}, {"unprojected_ignored"}, {"null_equals_all"},
-               {"ordinal_ignored", "unprojected_ignored"}, {"ordinal_ignored", "null_equals_all"},
-               {"unprojected_ignored", "null_equals_all"}, DevNames >>
+        dirs == Dirs(keys)
+        P == ProjectionS(q, keys, OutSel(q, devs))
+        nulleq == "null_equals_all" \in devs
+    IN /\ Applicable(q, devs)
+       /\ IF "distinct_window_twice" \in devs
+            THEN /\ (nulleq => HasNullKey(P))
+                 /\ TwiceFrom(obs, P, dirs, q, WinHi(Len(P), q.lim, q.off) - WinLo(Len(P), q.off), nulleq, << >>, {})
+            ELSE LET R == SortBy(IF q.dist THEN Distinct(P) ELSE P, dirs) IN
+                 IF nulleq THEN NullEqAdmissible(obs, R, dirs, q.lim, q.off)
+                           ELSE AdmissibleOutput(obs, R, Classes(R, dirs), q.lim, q.off)
+\* candidate explanations: at most three deviations; fewer first, then by position in DevSeq (a fixed total order)
+DevSets == {S \in SUBSET DevNames : Cardinality(S) \in 1..3}
+RECURSIVE WeightFrom(_, _)
+WeightFrom(S, i) == IF i > Len(DevSeq) THEN 0 ELSE (IF DevSeq[i] \in S THEN 2 ^ (i - 1) ELSE 0) + WeightFrom(S, i + 1)
+Rank(S) == Cardinality(S) * 1000 + WeightFrom(S, 1)
+\* [v |-> "ok" | "dev" | "bad", devs |-> the explaining set]
 Verdict(obs, q) ==
-    IF Admissible(obs, q) THEN "ok"
-    ELSE LET hits == {i \in 1..Len(DevOrder) : DevAdmissible(obs, q, DevOrder[i])}
-         IN IF hits = {} THEN "bad" ELSE LET i == MinOf(hits) IN
-            CASE i = 1 -> "ordinal_ignored" [] i = 2 -> "unprojected_ignored" [] i = 3 -> "null_equals_all"
-              [] i = 4 -> "ordinal_ignored+unprojected_ignored" [] i = 5 -> "null_equals_all+ordinal_ignored"
-              [] i = 6 -> "null_equals_all+unprojected_ignored" [] i = 7 -> "null_equals_all+ordinal_ignored+unprojected_ignored"
+    IF Admissible(obs, q) THEN [v |-> "ok", devs |-> {}]
+    ELSE LET hits == {S \in DevSets : DevAdmissible(obs, q, S)}
+         IN IF hits = {} THEN [v |-> "bad", devs |-> {}]
+            ELSE [v |-> "dev", devs |-> CHOOSE S \in hits : \A T \in hits : Rank(S) <= Rank(T)]
 
 (* -------------------------------------------------------------- query space *)
 SelLists(src) ==
@@ -252,10 +300,16 @@ KeyLists(sel) ==
         ok3 == {s \in K3 : Atom(s[3]) # Atom(s[1]) /\ Atom(s[3]) # Atom(s[2])}
     IN K1 \cup (IF MaxKeys >= 2 THEN ok2 ELSE {}) \cup (IF MaxKeys >= 3 THEN ok3 ELSE {})
 WinVals(n) == {NoLim, 0, 1, n - 1, n, n + 1} \cap (Nat \cup {NoLim})
-Windows(n) ==
-    IF FullWindows THEN WinVals(n) \X WinVals(n)
-    ELSE (WinVals(n) \X {NoLim}) \cup ({NoLim} \X WinVals(n))
-         \cup ({<<1, 1>>, <<n - 1, 1>>, <<1, n - 1>>, <<n, 1>>, <<2, 2>>, <<0, 1>>} \cap (Nat \X Nat))
+\* <<limit, offset>> pairs; n is the length of the window's input
+ProductWindows(n) == WinVals(n) \X WinVals(n)
+MidWindows(n) == (WinVals(n) \X {NoLim}) \cup ({NoLim} \X WinVals(n))
+                 \cup ({<<1, 1>>, <<n - 1, 1>>, <<1, n - 1>>, <<n, 1>>, <<0, 1>>} \cap (Nat \X Nat))
+SmallWindows(n) == {<<NoLim, NoLim>>} \cup ({<<n - 1, 1>>, <<1, 1>>} \cap (Nat \X Nat))
+\* the longer the key list, the fewer windows (the full product only for the short lists of the thorough tier)
+WindowsFor(ks, n) ==
+    IF FullWindows THEN (IF Len(ks) <= 1 THEN ProductWindows(n) ELSE IF Len(ks) = 2 THEN MidWindows(n)
+                         ELSE SmallWindows(n) \cup {<<n - 1, NoLim>>, <<NoLim, 1>>})
+    ELSE (IF Len(ks) <= 1 THEN MidWindows(n) ELSE SmallWindows(n))
 Sources == {"plain", "group", "join", "union"}
 \* a family fixes everything but keys and window; n (the length of the window's input) depends on the family only
 Families ==
@@ -271,7 +325,7 @@ KeysFor(f) ==
         /\ ((f.dist \/ f.src = "union") => \A i \in 1..Len(ks) : Projected(ks[i], f.sel))
         /\ (f.tab \in {"e", "n"} => Len(ks) <= 1)}
 InputLen(f) == Len(SortedInput(WithKeys(f, << >>, NoLim, NoLim), << >>))
-QueriesOf(f) == LET n == InputLen(f) IN {WithKeys(f, ks, w[1], w[2]) : ks \in KeysFor(f), w \in Windows(n)}
+QueriesOf(f) == LET n == InputLen(f) IN UNION {{WithKeys(f, ks, w[1], w[2]) : w \in WindowsFor(ks, n)} : ks \in KeysFor(f)}
 
 (* ------------------------------------------- meta-invariants on the oracle *)
 OracleOK(q) ==
@@ -279,27 +333,36 @@ OracleOK(q) ==
         dirs == Dirs(q.keys)
         cls == Classes(R, dirs)
         n == Len(R)
-        ans == Answer(q)
+        ans == Outs(Window(R, q.lim, q.off))
         P == Projection(q, q.keys)
+        D == Distinct(P)
+        In == IF q.dist THEN D ELSE P
+        Adm(obs) == AdmissibleOutput(obs, R, cls, q.lim, q.off)
     IN /\ IsSortedBy(R, dirs)                                                    \* the sort sorts
-       /\ BagOfIdx(R, 1..n) = BagOfIdx(IF q.dist THEN Distinct(P) ELSE P, 1..Len(IF q.dist THEN Distinct(P) ELSE P)) \* and permutes
+       /\ BagOfIdx(R, 1..n) = BagOfIdx(In, 1..Len(In))                           \* ... and permutes
        /\ Len(ans) = (IF q.lim = NoLim THEN Max2(n - WinLo(n, q.off), 0)
                       ELSE Min2(q.lim, Max2(n - (IF q.off = NoLim THEN 0 ELSE q.off), 0)))   \* |Window| = min(limit, n - offset)
-       /\ Admissible(ans, q)                                                     \* the canonical answer is admissible
-       /\ Distinct(Distinct(P)) = Distinct(P)                                    \* DISTINCT is idempotent
-       /\ Cardinality({Distinct(P)[i].o : i \in 1..Len(Distinct(P))}) = Len(Distinct(P))      \* ... and leaves each tuple once
-       /\ {Distinct(P)[i].o : i \in 1..Len(Distinct(P))} = {P[i].o : i \in 1..Len(P)}        \* ... and loses none
+       /\ ans = Answer(q)
+       /\ Adm(ans)                                                              \* the canonical answer is admissible
+       /\ Distinct(D) = D                                                       \* DISTINCT is idempotent
+       /\ Cardinality({D[i].o : i \in 1..Len(D)}) = Len(D)                      \* ... leaves each tuple once
+       /\ {D[i].o : i \in 1..Len(D)} = {P[i].o : i \in 1..Len(P)}               \* ... and loses none
        /\ (q.lim = NoLim /\ q.off = NoLim => Len(ans) = n)
        /\ (q.lim = 0 => ans = << >>)
        \* the window of a window: OFFSET o LIMIT l = first l of (drop o)
        /\ ans = Outs(Window(Window(R, NoLim, q.off), q.lim, NoLim))
-       \* reversing every direction reverses the class sequence (NULL first <-> NULL last)
-       /\ LET rdirs == [i \in 1..Len(dirs) |-> IF dirs[i] = "ASC" THEN "DESC" ELSE "ASC"]
-              rcls == Classes(SortBy(R, rdirs), rdirs)
-          IN n > 0 => /\ rcls[n] = cls[n]
-                      /\ \A i \in 1..n : Cmp(SortBy(R, rdirs)[i].k, R[n + 1 - i].k, dirs) = 0
-       \* a rotated tie class stays admissible, a swap across classes does not (the predicate is neither blind nor tie-sensitive)
+       \* reversing every direction reverses the order of the tie classes (NULL first <-> NULL last)
+       /\ LET rdirs == << >> \o [i \in 1..Len(dirs) |-> IF dirs[i] = "ASC" THEN "DESC" ELSE "ASC"]
+              RR == SortBy(R, rdirs)
+          IN n > 0 => /\ Classes(RR, rdirs)[n] = cls[n]
+                      /\ \A i \in 1..n : Cmp(RR[i].k, R[n + 1 - i].k, dirs) = 0
+       \* the predicate is not blind: when the answer is unique, exchanging two different neighbours is rejected,
+       \* and a sequence one row short or one row long is rejected
        /\ (Deterministic(R, cls, q.lim, q.off) => \A i \in 1..Len(ans) - 1 :
-              (ans[i] # ans[i + 1]) => ~Admissible([j \in 1..Len(ans) |-> IF j = i THEN ans[i + 1] ELSE IF j = i + 1 THEN ans[i] ELSE ans[j]], q))
-       /\ Verdict(ans, q) = "ok"
+              (ans[i] # ans[i + 1]) => ~Adm([j \in 1..Len(ans) |-> IF j = i THEN ans[i + 1] ELSE IF j = i + 1 THEN ans[i] ELSE ans[j]]))
+       /\ (Len(ans) > 0 => ~Adm(Tail(ans)) /\ ~Adm(ans \o <<ans[1]>>))
+       \* ... and not tie-sensitive: rotating the rows of the window inside one tie class stays admissible
+       /\ \A i \in 1..Len(ans) - 1 : cls[WinLo(n, q.off) + i] = cls[WinLo(n, q.off) + i + 1] =>
+              Adm([j \in 1..Len(ans) |-> IF j = i THEN ans[i + 1] ELSE IF j = i + 1 THEN ans[i] ELSE ans[j]])
+       /\ Verdict(ans, q).v = "ok"
 =============================================================================
